@@ -174,12 +174,12 @@ def history1(cfg: int, op0: int, dv: int, pd: bool, kv: int, x: int, px: bool, y
     return _history((op0,), kind, abstract, dv, pd, kv, x, px, y, a, True, ev)
 
 
-@harness("C07", lemma="history-3", cubes={"cfg": [0, 1, 2, 3], "op0": list(range(N_OPS)), "op1": list(range(N_OPS))}, tier="thorough",
-         pre=["0 <= op2 < %d" % N_OPS], example=dict(cfg=0, op0=0, op1=3, op2=5, dv=1, pd=True, kv=0, x=4, px=True, y=5, a=6, pa=True, ev=3),
-         timeout=1800, bounds="every history of 3 operations for 4 configurations, A present or absent; " + _HB, what=_HW)
-def history3(cfg: int, op0: int, op1: int, op2: int, dv: int, pd: bool, kv: int, x: int, px: bool, y: int, a: int, pa: bool, ev: int) -> int:
+@harness("C07", lemma="history-3", cubes={"cfg": [0, 3], "op0": list(range(N_OPS)), "op1": list(range(N_OPS))}, tier="thorough",
+         pre=["0 <= op2 < %d" % N_OPS], example=dict(cfg=0, op0=0, op1=3, op2=5, dv=1, pd=True, kv=0, x=4, px=True, y=5, a=6, ev=3),
+         timeout=1800, bounds="every history of 3 operations for 2 configurations (option-key dispatch; dataset dispatch); " + _HB, what=_HW)
+def history3(cfg: int, op0: int, op1: int, op2: int, dv: int, pd: bool, kv: int, x: int, px: bool, y: int, a: int, ev: int) -> int:
     kind, abstract = CFG[cfg]
-    return _history((op0, op1, op2), kind, abstract, dv, pd, kv, x, px, y, a, pa, ev)
+    return _history((op0, op1, op2), kind, abstract, dv, pd, kv, x, px, y, a, True, ev)
 
 
 # ---------------------------------------------------------------------------------------------------------
